@@ -57,6 +57,8 @@ def gen_cases(ctx, ngroups):
         name, d = r.choice(multi if r.random() < 0.7 else smalls)
         if r.random() < 0.15:
             d = A.mutate_archive(r, d)
+        elif r.random() < 0.2:
+            d = r.choice([A.dirkind_archive, A.odd_method_archive, A.prefix_dirs_archive, A.prefix_dirs_archive])(r)
         kind, pol = r.choice(A.KINDS), r.choice(A.POLICIES)
         nent = r.randrange(2, 9)
         pat = [(r.choice(["x1", "x1", "x0"]) if r.random() < 0.35 else None) for _ in range(nent)]
@@ -84,6 +86,15 @@ def gen_cases(ctx, ngroups):
         for _ in range(len(ents) + 2):
             toks += ["n", "x1"]
         out.append(Case(A.rdr_op(kind, pol, toks, d), tags={"tree", "pol=" + pol}, note=("t", 100000 + g)))
+    # sibling directories whose names are prefixes of one another (a/ ab/ a.bak/ lib/ lib/sub/ lib2/), everything extracted, default
+    # policy mostly: "is the next entry still inside the directory on top of the stack?" is a path-prefix test
+    for g in range(max(4, ngroups // 2)):
+        d = A.prefix_dirs_archive(r)
+        kind, pol = r.choice(A.KINDS), r.choice(["eod", "eod", "eod", "eof", "plain"])
+        toks = []
+        for _ in range(14):
+            toks += ["n", "x0" if r.random() < 0.05 else "x1"]
+        out.append(Case(A.rdr_op(kind, pol, toks, d), tags={"tree", "prefix-siblings", "pol=" + pol}, note=("t", 200000 + g)))
     # every presented entry gets a treatment — also the directories the reader re-presents on its own (reads and checks on them
     # must deliver nothing and must not disturb the member that is already pending behind them)
     for g in range(ngroups // 2):
